@@ -34,6 +34,7 @@ QUICK_VALIDATE = 4
 
 def cases(tier):
     out = [dict(kind='negotiate'), dict(kind='keepalive', traffic=0), dict(kind='keepalive', traffic=1),
+           dict(kind='keepalive', traffic=2),
            dict(kind='idle', peer='silent'), dict(kind='idle', peer='alive'), dict(kind='modulate', acks=2)]
     if tier == 'thorough':
         out.append(dict(kind='modulate', acks=3))
@@ -101,9 +102,10 @@ def harness(case, tier):
 
     if kind == 'keepalive':
         c.assume(ka > 0)
-        # optional traffic strictly before the first deadline moves the deadline
+        # optional traffic strictly before the first deadline
         t_last = {'A': 0, 'B': 0}
-        if case['traffic']:
+        if case['traffic'] == 1:
+            # A sends a bundle, B acknowledges: both transmit at dt, both deadlines move
             dt = c.sym_int('dt', 0, 65535 * 1000)
             c.assume(dt < ka * 1000)
             GLib.STATE.now_ms = dt
@@ -112,29 +114,46 @@ def harness(case, tier):
             w.a.send_bundle_fileobj(BytesIO(c.sym_blob('bundle', ln)))
             w.run(300)
             t_last = {'A': dt, 'B': dt}
+        elif case['traffic'] == 2:
+            # octets arrive at A (a KEEPALIVE from the peer's direction) while A itself stays silent:
+            # A's own keepalive deadline must not move
+            dt = c.sym_int('dt', 1, 65535 * 1000)
+            c.assume(dt < ka * 1000)
+            GLib.STATE.now_ms = dt
+            w.ba.buf = w.ba.buf + rfc9174.encode(dict(kind='KEEPALIVE'))
+            w.run(300)
         n_exp = 3 if tier == 'quick' else 4
+        sent_ka = {'A': 0, 'B': 0}
         for i in range(n_exp):
-            before_a, _r = rfc9174.decode_stream(w.ab.total)
-            before_b, _r = rfc9174.decode_stream(w.ba.total)
             src = w.advance_to_next_timer()
             c.prove(src is not None, 'keepalive-timer-pending')
             if src is None:
                 break
-            side = w.owner(src)
             now = GLib.STATE.now_ms
-            c.prove(now == t_last[side] + ka * 1000, 'keepalive-fires-one-interval-after-last-transmission',
-                    detail=dict(side=side, now=now, last=t_last[side], ka=ka))
-            w.dispatch(src)
+            due = [s for s in w.enabled(timers=True) if s.kind == 'timeout']
+            sides = sorted(set(w.owner(s) for s in due))
+            for s in due:
+                w.dispatch(s)
             w.run(300)
-            after_a, _r = rfc9174.decode_stream(w.ab.total)
-            after_b, _r = rfc9174.decode_stream(w.ba.total)
-            new = (after_a[len(before_a):] if side == 'A' else after_b[len(before_b):])
-            c.prove([m['kind'] for m in new] == ['KEEPALIVE'], 'keepalive-sent-on-expiry',
-                    detail=dict(side=side, new=[m['kind'] for m in new]))
-            t_last[side] = now
+            ma, _r = rfc9174.decode_stream(w.ab.total)
+            mb, _r = rfc9174.decode_stream(w.ba.total)
+            count = {'A': len([m for m in ma if m['kind'] == 'KEEPALIVE']),
+                     'B': len([m for m in mb if m['kind'] == 'KEEPALIVE'])}
+            for side in ('A', 'B'):
+                expect_now = bool(now == t_last[side] + ka * 1000)
+                if expect_now:
+                    c.prove(count[side] == sent_ka[side] + 1, 'keepalive-sent-one-interval-after-last-transmission',
+                            detail=dict(side=side, now=now, last=t_last[side], ka=ka, count=count[side], before=sent_ka[side]))
+                    t_last[side] = now
+                else:
+                    c.prove(count[side] == sent_ka[side], 'no-keepalive-before-interval-elapsed',
+                            detail=dict(side=side, now=now, last=t_last[side], ka=ka))
+                    c.prove(now < t_last[side] + ka * 1000, 'keepalive-not-late',
+                            detail=dict(side=side, now=now, last=t_last[side], ka=ka))
+                sent_ka[side] = count[side]
         c.prove(not w.escaped(), 'no-callback-exception', detail=[repr(e) for (_s, e) in w.escaped()])
         c.prove(w.a._state == 'established' and w.b._state == 'established', 'keepalives-keep-session-up')
-        return {'class': cls, 'wire': [w.ab.total, w.ba.total]}
+        return {'class': cls, 'keepalives': sent_ka}
 
     if kind == 'idle':
         c.assume(idle_a > 0)
